@@ -10,6 +10,9 @@ import (
 // TableInfo describes one SQL table struct of the analysed file, from the
 // source's point of view (never from gomacro's output).
 type TableInfo struct {
+	// Frozen: the table is part of the schema and of the cross-checks but the
+	// harness never writes to it (its rows would need keys the model does not track)
+	Frozen bool `json:"frozen,omitempty"`
 	Name       string       `json:"name"` // Go struct name
 	Primary    bool         `json:"primary"`
 	IDType     string       `json:"id_type,omitempty"` // "int64" or a local named type
